@@ -72,9 +72,19 @@ def main() -> int:
         results = list(ex.map(lambda i: run_one(i, workers, a.tier, a.opt, a.as_prop), ids))
     for r in results:
         print(("caught " if r["caught"] else "MISSED ") + f"{r['id']:<40} exit={r['exit']} {r['wall_s']:>7}s {r.get('signature', '')} {r.get('note', '')}")
-    if not a.only and not a.as_prop:
-        with open(os.path.join(VERIF, "selftest", f"seeded_report_{a.tier}.json"), "w", encoding="utf-8") as f:
-            json.dump({"results": results}, f, indent=1)
+    if not a.as_prop:
+        # the report describes every seeded change: partial runs replace their entries
+        path = os.path.join(VERIF, "selftest", f"seeded_report_{a.tier}.json")
+        merged = {}
+        if os.path.exists(path):
+            with open(path, encoding="utf-8") as f:
+                merged = {r["id"]: r for r in json.load(f).get("results", [])}
+        for r in results:
+            r["budget_opts"] = a.opt
+            merged[r["id"]] = r
+        all_ids = sorted(os.path.basename(os.path.dirname(p)) for p in glob.glob(os.path.join(VERIF, "seeded", "*", "patch.diff")))
+        with open(path, "w", encoding="utf-8") as f:
+            json.dump({"results": [merged[i] for i in all_ids if i in merged], "not_yet_run": [i for i in all_ids if i not in merged]}, f, indent=1)
     print(f"{sum(r['caught'] for r in results)}/{len(results)} caught")
     return 0
 
